@@ -681,6 +681,41 @@ func errClass(msg string) string {
 	return "unpositioned-error"
 }
 
+// tokenPostcondition tests, without any model, what the parser assumes of the tokens it is handed:
+// String tokens are "..." or f"..." with both quotes, Int tokens are not empty, EOF tokens carry no value,
+// positions never decrease, a complete stream ends with EOF. Returns a defect class and a description.
+func tokenPostcondition(toks []asp.VerifC19Token, lo asp.VerifC19Outcome) (string, string) {
+	last := 0
+	for i, t := range toks {
+		switch t.Type {
+		case int(asp.String):
+			body := t.Value
+			if len(body) > 0 && body[0] == 'f' {
+				body = body[1:]
+			}
+			if len(body) < 2 || body[0] != '"' || body[len(body)-1] != '"' {
+				return "lexer-string-token-without-quotes", fmt.Sprintf("token %d: String token %q is not \"...\" or f\"...\"", i, t.Value)
+			}
+		case int(asp.Int):
+			if t.Value == "" {
+				return "lexer-empty-int-token", fmt.Sprintf("token %d: Int token without digits", i)
+			}
+		case int(asp.EOF):
+			if t.Value != "" {
+				return "lexer-eof-token-with-value", fmt.Sprintf("token %d: EOF token with value %q", i, t.Value)
+			}
+		}
+		if t.Pos < last {
+			return "lexer-token-position-decreases", fmt.Sprintf("token %d at %d after a token at %d", i, t.Pos, last)
+		}
+		last = t.Pos
+	}
+	if lo.Kind == "ok" && (len(toks) == 0 || toks[len(toks)-1].Type != int(asp.EOF)) {
+		return "lexer-stream-without-eof", "a complete token stream does not end with EOF"
+	}
+	return "", ""
+}
+
 func main() {
 	if len(os.Args) > 1 && os.Args[1] == "c19-child" {
 		child()
@@ -694,7 +729,8 @@ func main() {
 			"(b) whole files and line windows of the repository's own BUILD / build_defs files, raw and mutated; (c) random bytes over a lexer-relevant alphabet and over all 256 values, incl. NULs; " +
 			"(d) a fixed adversarial list (NUL placement, unterminated and triple-quoted strings, f-string braces, adjacent string/f-string literals, integer limits, indentation, every production cut short, UTF-8 edge cases) and the pre-fix corpus; " +
 			"(e) nesting/repetition 10^3-10^4 deep in-process and 10^6-10^7 deep in a child process. Each input is lexed (real lexer alone) and parsed (Parser.ParseData); " +
-			"model cases compare the whole token stream (type, value, position) or the lexer error position, and the parse result kind, statement count or error position. " +
+			"model cases compare the whole token stream (type, value, position) or the lexer error position, and the parse result kind, statement count or error position; " +
+			"the oracle also tests the lexer postcondition of C19_lex_tokens (quotes of String tokens, non-empty Int, empty EOF value, non-decreasing positions, EOF last) on every real token stream. " +
 			"distinct = distinct byte strings; non-trivial = at least 3 tokens or a parse error")
 
 		tStart := time.Now()
@@ -739,6 +775,11 @@ func main() {
 			}
 			if lo.Kind != "ok" && lo.Kind != "positioned" {
 				c.Fail("lexer-"+errClass(lo.Msg), "the lexer alone failed without a position: "+lo.Msg, in)
+			}
+			// the lexer postcondition C19_parse_safe rests on (C19_lex_tokens proves it of the model), tested on
+			// the tokens of the real lexer: the parser indexes tok.Value[0], tok.Value[2:len-1], String[1:len-1]
+			if cls, what := tokenPostcondition(toks, lo); cls != "" {
+				c.Fail(cls, what, in)
 			}
 			if po.Kind == "positioned" && (po.Offset < 0 || po.Offset > len(data)+2) {
 				c.Fail("error-position-outside-file", fmt.Sprintf("error position %d outside the %d-byte file", po.Offset, len(data)), in)
